@@ -1,4 +1,5 @@
 import NxModel.Nex.RmcServer
+import NxModel.Nex.RmcServerObj
 import NxModel.Nex.RmcResult
 import NxModel.Nex.RmcRequest
 import NxModel.DriverUtil
@@ -10,6 +11,11 @@ import NxModel.DriverUtil
   full <hex datagram> <extract> <user>          -> <hres> => <reaction>
   sbegin                                        -> ok     a new connection (request sequence) starts
   sreq <hex datagram> <extract> <user>          -> <hres> => <reaction> | dead    its next request, through `serveStep` (= `serve`)
+  sreqo <hex datagram> <extract> <user> <truth> <waits>
+                                                -> <ms> <hres> => <reaction> | dead   the same against registered OBJECTS whose truth
+                                                   values (`bool(obj)` when the request arrives) are <truth> = `-` | `,`-joined protocol:0|1
+                                                   and a user coroutine that awaits <waits> = `-` | `,`-joined milliseconds first
+                                                   (`serveStepTimed`); <ms> = time until the loop is back at recv()
   inv <hex datagram> <extract>                  -> nosrv | <protocol>:<method id>:<- | id>   which server's handle() is entered, with which
                                                    method id, and the table id of the user method that then runs (`dispatch`)
   rchk <where> <slot> <val>                     -> ok | <type(e).__name__>   what writing <val> at a position declared <slot> raises
@@ -276,6 +282,14 @@ def parseExtractIn (env : Nx.RmcRequest.Env) (body : Bytes) (s : String) : Optio
   else (parseExc s).map some
 
 
+def parseTruth (s : String) : Option (List (Nat × Bool)) :=
+  if s = "-" then some [] else (s.splitOn ",").mapM fun t =>
+    match t.splitOn ":" with
+    | [p, b] => match p.toNat? with
+      | some p => if b = "0" then some (p, false) else if b = "1" then some (p, true) else none
+      | none => none
+    | _ => none
+
 structure D where
   tbl : List Server
   alive : Bool
@@ -387,6 +401,25 @@ def stepLine (d : D) (line : String) : D × String :=
          | none => "dead"
          | some r => (match hres with | some h => showHres h | none => "nosrv") ++ " => " ++ showReaction r)
     | _, _ => (d, "bad-op")
+  | ["sreqo", h, ex, u, truth, waits] =>
+    match fromHex h, parseUser u, parseTruth truth, parseNatsSep "," (if waits = "-" then [] else waits.toList) with
+    | some data, some u, some truth, some waits =>
+      match decode data with
+      | .error e => (d, "crash " ++ e.name)
+      | .ok m =>
+        if m.mode ≠ 0 then (d, "notreq") else
+        match parseExtractIn d.env m.body ex with
+        | none => (d, "bad-op")
+        | some ex =>
+        let objs : List Obj := d.tbl.map fun s =>
+          { srv := s, truthy := match truth.find? (·.1 == s.protocol) with | some (_, b) => b | none => true }
+        let prog : Prog := waits.foldr Prog.wait (.done u)
+        let (alive', r) := serveStepTimed objs d.alive m ex prog
+        ({ d with alive := alive' },
+         match r with
+         | none => "dead"
+         | some (ms, hres, r) => s!"{ms} " ++ (match hres with | some h => showHres h | none => "nosrv") ++ " => " ++ showReaction r)
+    | _, _, _, _ => (d, "bad-op")
   | _ => let (t, o) := stepTbl d.env d.tbl line; ({ d with tbl := t }, o)
 
 def main : IO Unit := runState ({ tbl := [], alive := true, env := { structs := [], registry := [] } } : D) stepLine
